@@ -37,6 +37,7 @@ def setup(ctx):
         "URLs with characters outside the RFC 3986 alphabet and an empty query ('p?') are grey",
         "the audit hook sees every getaddrinfo/connect made by the server (same process, other threads than the harness client)",
     ]
+    ctx.require("monitor", "faulty_or_redirecting_upstream_exchanges", 10)
     ctx.require("monitor", "requests", 300)
     ctx.require("monitor", "upstream_lines_checked", 150)
     ctx.require("monitor", "socket_events_checked", 150)
@@ -308,6 +309,69 @@ def run(ctx):
                             ctx.count("outcome", f"{route}:{status}")
                     ctx.case((shape, feat, route, status, len(up_recs)), True,
                              sample={"config": shape, "line": line[:120], "feature": feat, "route": route, "status": status, "upstream_line": (up_recs[0].get("request_line") or b"")[:120] if up_recs else None})
+        # ---- an upstream that fails and / or answers with redirects to another server: whatever it does, the
+        # proxy talks to nobody else (a redirect is relayed, a failed exchange is not "repaired" somewhere else)
+        if ctx.mine(len(CONFIGS)) or ctx.nshards == 1:
+            cfg = CONFIGS[0]
+            srv, locs = world.server(cfg)
+            decoy = world.decoys[0]
+            target = f"gemini://127.0.0.1:{decoy.port}/elsewhere"
+            state = {"n": 0, "plan": []}
+
+            def fn(conn):
+                i = state["n"]
+                state["n"] += 1
+                what = state["plan"][i] if i < len(state["plan"]) else "redirect"
+                line = conn.read_line(timeout=3)
+                if what == "close-before-header":
+                    conn.close()
+                elif what == "reset-before-header":
+                    conn.reset()
+                elif what == "garbage":
+                    conn.send(b"\x00\x01 nonsense\r\n")
+                    conn.close()
+                elif what == "half-header":
+                    conn.send(b"31 gemini://127.0.0.1")
+                    conn.close()
+                else:
+                    conn.send(f"3{i % 2} {target}\r\n".encode())
+                    conn.close()
+
+            with srv:
+                world.upstream_script["fn"] = fn
+                try:
+                    for plan in (["redirect"], ["close-before-header", "redirect"], ["reset-before-header", "redirect"], ["garbage", "redirect"], ["half-header", "redirect"],
+                                 ["close-before-header", "close-before-header", "redirect"]):
+                        for rep in range(2):
+                            state.update(n=0, plan=plan)
+                            up0 = len(world.upstream.log)
+                            d0 = [len(d.log) for d in world.decoys]
+                            audit.start()
+                            results = []
+                            for _ in range(len(plan)):
+                                results.append(live.fetch_raw(srv.port, f"gemini://127.0.0.1:{srv.port}/page?x=1\r\n".encode(), timeout=15))
+                            world.upstream.wait_idle(3)
+                            for d in world.decoys:
+                                d.wait_idle(2)
+                            events = [e for e in audit.stop() if e["ev"] in ("socket.connect", "socket.getaddrinfo") and e["tid"] != main_tid]
+                            decoy_hits = sum(len(d.log) - n0 for d, n0 in zip(world.decoys, d0))
+                            ctx.count("monitor", "requests", len(plan))
+                            ctx.count("monitor", "faulty_or_redirecting_upstream_exchanges", len(plan))
+                            ctx.count("monitor", "socket_events_checked", len(events))
+                            wit = {"upstream_plan": plan, "redirect_target": target, "downstream": [r["data"][:80] for r in results], "upstream_connections": len(world.upstream.log) - up0,
+                                   "socket_events": [(e["ev"], e.get("addr") or (e.get("host"), e.get("port"))) for e in events][:8]}
+                            foreign = [e for e in events if (e["ev"] == "socket.connect" and not (isinstance(e.get("addr"), tuple) and e["addr"][1] == world.upstream.port))
+                                       or (e["ev"] == "socket.getaddrinfo" and int(e.get("port") or 0) != world.upstream.port)]
+                            if decoy_hits or foreign:
+                                ctx.violation("foreign-connect:after-upstream-" + ("redirect" if plan == ["redirect"] else "fault-then-redirect"),
+                                              "the proxy contacted a server other than its upstream after the upstream failed / redirected", wit)
+                            elif any(r["data"].startswith(b"20") and b"DECOY" in r["data"] for r in results):
+                                ctx.violation("foreign-content-relayed", "content of another server was relayed", wit)
+                            else:
+                                ctx.count("outcome", "upstream-fault-or-redirect:contained")
+                            ctx.case(("upstream-fault-redirect", tuple(plan), tuple(r["data"][:2] for r in results)), True, sample=wit)
+                finally:
+                    world.upstream_script["fn"] = None
     finally:
         world.close()
         shutil.rmtree(base, ignore_errors=True)
